@@ -1442,7 +1442,7 @@ class VacancyMediated(object):
         return omega0, omega1, omega2, \
                omega0escape, omega1escape, omega2escape
 
-    def Lij(self, bFV, bFS, bFSV, bFT0, bFT1, bFT2, large_om2=1e8):
+    def Lij(self, bFV, bFS, bFSV, bFT0, bFT1, bFT2, large_om2=1e4):
         """
         Calculates the transport coefficients: L0vv, Lss, Lsv, L1vv from the scaled free energies.
         The Green function entries are calculated from the omega0 info. As this is the most
@@ -1455,7 +1455,7 @@ class VacancyMediated(object):
         :param bFT0[Nomega0]: beta*eneT0 - ln(preT0) (relative to minimum value of bFV)
         :param bFT1[Nomega1]: beta*eneT1 - ln(preT1) (relative to minimum value of bFV + bFS)
         :param bFT2[Nomega2]: beta*eneT2 - ln(preT2) (relative to minimum value of bFV + bFS)
-        :param large_om2: threshold for changing treatment of omega2 contributions (default: 10^8)
+        :param large_om2: threshold for changing treatment of omega2 contributions (default: 10^4)
         :return Lvv[3, 3]: vacancy-vacancy; needs to be multiplied by cv/kBT
         :return Lss[3, 3]: solute-solute; needs to be multiplied by cv*cs/kBT
         :return Lsv[3, 3]: solute-vacancy; needs to be multiplied by cv*cs/kBT
@@ -1569,26 +1569,53 @@ class VacancyMediated(object):
         if np.any(np.abs(gdom2) > large_om2):
             nom2 = len(om2_sv_indices)
             om2eig, om2vec = np.linalg.eigh(om2_slice)
-            G1rot = np.dot(om2vec.T, np.dot(G1, om2vec))  # rotated matrix
             # eigenvalues are sorted in ascending order, and omega2 is negative definite
             # om2min = -np.min(omega2escape)  # this is the smallest that any nonzero eigenvalue can be
             om2min = -0.5*min(om for omlist in omega2escape for om in omlist if om>0)
             nnull = next((n for n in range(nom2) if om2eig[n] > om2min), nom2)  # 0:nnull == not in nullspace
-            # general update (g^-1 + w)^-1:
-            G2rot = np.dot(np.linalg.inv(np.eye(nom2) + np.dot(G1rot, np.diag(om2eig))), G1rot)
+            # Update (g^-1 + om2)^-1 with om2 = U w U^T on its non-null eigenvectors U (Woodbury):
+            #   X = g - gU M (gU)^T,  M = (w^-1 + U^T g U)^-1,  X U = gU M w^-1 = C,  U^T X U - w^-1 = -(w+wgw)^-1 = R
+            # The biases that come from the exchange jumps are of order w and lie in the span of U (the null
+            # vectors of om2 are orthogonal to them by detailed balance), while G has entries of order 1; to keep
+            # roundoff of order eps*w^2 out of the result, G - U w^-1 U^T is never formed as a matrix: it is applied
+            # to a bias given as U bn + bq (bq = part orthogonal to U), each block with its closed form.
+            Nvstars = self.vkinetic.Nvstars
+            U = np.zeros((Nvstars, nnull))
+            U[om2_sv_indices, :] = om2vec[:, 0:nnull]
+            # the (near) null eigenvectors of om2 have small eigenvalues: ordinary update
+            Uz = np.zeros((Nvstars, nom2 - nnull))
+            Uz[om2_sv_indices, :] = om2vec[:, nnull:]
+            om2z = np.dot(Uz, np.dot(np.diag(om2eig[nnull:]), Uz.T))
+            if nnull < nom2:
+                G = np.dot(np.linalg.inv(np.eye(Nvstars) + np.dot(G, om2z)), G)
             om2rot = np.diag(om2eig[0:nnull])
+            winv = np.diag(1. / om2eig[0:nnull])
+            gU = np.dot(G, U)
+            gUU = np.dot(U.T, gU)
+            M = np.linalg.inv(winv + gUU)
+            Gfull = G - np.dot(gU, np.dot(M, gU.T))  # X
+            C = np.dot(gU, np.dot(M, winv))
             # in the non-null subspace, replace with (g^-1+w)^-1-w^-1 = -(w+wgw)^-1:
-            G2rot[0:nnull, 0:nnull] = -np.linalg.inv(om2rot + np.dot(om2rot,
-                                                                     np.dot(G1rot[0:nnull,0:nnull],
-                                                                            om2rot)))
-            Greplace = np.dot(om2vec, np.dot(G2rot, om2vec.T))  # transform back
-            om2_inv = np.linalg.pinv(om2_slice)  # only used here for testing purposes...
-            # update with omega2, and then put in change due to omega2
-            G = np.dot(np.linalg.inv(np.eye(self.vkinetic.Nvstars) + np.dot(G, om2)), G)
-            Gfull = G.copy()
-            for ni, i in enumerate(om2_sv_indices):
-                for nj, j in enumerate(om2_sv_indices):
-                    G[i, j] = Greplace[ni, nj]
+            R = -np.linalg.inv(om2rot + np.dot(om2rot, np.dot(gUU, om2rot)))
+
+            def Qproj(v):
+                """projection orthogonal to U without cancellation: on the om2 indices keep the null components only"""
+                Qv = v.copy()
+                Qv[om2_sv_indices] = np.dot(om2vec[:, nnull:], np.dot(om2vec[:, nnull:].T, v[om2_sv_indices]))
+                return Qv
+
+            def Gapply(bn, bq):
+                """(X - U w^-1 U^T) applied to U bn + bq, where U^T bq = 0"""
+                return np.dot(U, np.dot(R, bn) + np.dot(C.T, bq)) + Qproj(np.dot(C, bn) + np.dot(Gfull, bq))
+
+            # delta_g = g0*dgd*g0 with dgd = -dom + dom*X*dom, dom = delta_om + om2 (origin-state correction in 6c):
+            # the terms of order w cancel exactly, -om2 + om2*X*om2 = -U M U^T and X*om2 = gU M U^T
+            dom_small = delta_om + om2z
+            gUM = np.dot(gU, M)
+            dgd = -dom_small + np.dot(dom_small, np.dot(Gfull, dom_small)) \
+                  + np.dot(dom_small, np.dot(gUM, U.T)) + np.dot(U, np.dot(gUM.T, dom_small)) \
+                  - np.dot(U, np.dot(M, U.T))
+            om2_inv = np.dot(om2vec[:, 0:nnull], np.dot(winv, om2vec[:, 0:nnull].T))  # inverse on the non-null space
 
             bV, bV2, bS, = biasVvec[om2_sv_indices], biasVvec_om2[om2_sv_indices], biasSvec[om2_sv_indices]
             om2_outer = self.vkinetic.outer[:, :, om2_sv_indices, :][:, :, :, om2_sv_indices]
@@ -1597,17 +1624,24 @@ class VacancyMediated(object):
             D0sv = np.dot(np.dot(om2_outer, np.dot(om2_inv, bS)), bV) / self.N
             D2vv_cross = np.dot(np.dot(om2_outer, bV2), np.dot(om2_inv, bV))
             D2vv = (np.dot(np.dot(om2_outer, bV), np.dot(om2_inv, bV)) + D2vv_cross + D2vv_cross.T) / self.N
+            # 6a/b. split the biases into their (large) part along U and the remainder, and apply G blockwise
+            bSn = np.dot(U.T, biasSvec)
+            bVn = np.dot(U.T, biasVvec) + np.dot(U.T, biasVvec_om2)
+            bVq = Qproj(biasVvec)
+            biasSvec, biasVvec = np.dot(U, bSn), np.dot(U, bVn) + bVq
+            etaVvec, etaSvec = Gapply(bVn, bVq), Gapply(bSn, np.zeros(Nvstars))
         else:
             # update with omega2 ("small" omega2):
             G = np.dot(np.linalg.inv(np.eye(self.vkinetic.Nvstars) + np.dot(G, om2)), G)
             Gfull = G
+            dom = delta_om + om2  # sum of the terms
+            dgd = -dom + np.dot(dom, np.dot(Gfull, dom))  # delta_g = g0*dgd*g0
+            # 6. Compute bias contributions to Onsager coefficients
+            # 6a. add in the om2 contribution to biasVvec:
+            biasVvec += biasVvec_om2
+            # 6b. GF pieces:
+            etaVvec, etaSvec = np.dot(G, biasVvec), np.dot(G, biasSvec)
 
-        # 6. Compute bias contributions to Onsager coefficients
-        # 6a. add in the om2 contribution to biasVvec:
-        biasVvec += biasVvec_om2
-
-        # 6b. GF pieces:
-        etaVvec, etaSvec = np.dot(G, biasVvec), np.dot(G, biasSvec)
         outer_etaVvec, outer_etaSvec = np.dot(self.vkinetic.outer, etaVvec), np.dot(self.vkinetic.outer, etaSvec)
 
         L1ss = np.dot(outer_etaSvec, biasSvec) / self.N
@@ -1618,9 +1652,6 @@ class VacancyMediated(object):
         if len(self.OSindices) > 0:
             etaV0 = -np.tensordot(self.OS_VB, etav, axes=((1, 2), (0, 1))) * np.sqrt(self.N)
             outer_etaV0 = np.dot(self.vkinetic.outer[:, :, self.OSindices, :][:, :, :, self.OSindices], etaV0)
-            dom = delta_om + om2  # sum of the terms
-            # dgd = -dom + np.dot(dom, np.dot(G, dom))  # delta_g = g0*dgd*g0
-            dgd = -dom + np.dot(dom, np.dot(Gfull, dom))  # delta_g = g0*dgd*g0
             G0db = np.dot(G0, biasVvec)  # G0*db
             # 2 eta0*db + 2 eta0*dgd*G0*db + eta0*dgd*eta0  (domega = delta_om + om2)
             # - etaV0*biasV0 (correction due to removing states)
